@@ -47,6 +47,10 @@ structure Env where
   nbc : List Nat → Option ((Nat → Nat → Rat) × Option Rat)
   /-- `norm(ind.genome − sibling.centroid, ord)`; `none` = the sibling has no centroid -/
   dist : List Rat → List Nat → Option Rat
+  /-- `Cluster.from_deme(sibling).is_in_extension(genome, threshold)` for a CMA-ES sibling (the
+  Mahalanobis distance under the strategy's covariance and the χ² threshold are numerics of
+  NumPy / SciPy / cma); `none` = the sibling is not a CMA-ES deme -/
+  maha : List Rat → List Nat → Option Bool := fun _ _ => none
 
 inductive Generator
   | bestPerDeme
@@ -60,6 +64,9 @@ inductive Filter
   | demeLimit (limit : Nat)
   | levelLimit (limit : Nat)
   | skipSame
+  /-- `MahalanobisFarEnough(percentile)`: drop a candidate that lies in the extension of a CMA-ES
+  deme of the target level (the percentile only enters the environment's verdicts) -/
+  | mahalanobis
 deriving Repr
 
 structure Mechanism where
@@ -165,6 +172,10 @@ def applyFilter (v : View) (env : Env) (f : Filter) (cs : List Cand) : Option (L
         let kids := (v.level c.level).flatMap (·.children)
         let seeds := (v.demes.filter fun k => kids.contains k.id).filterMap (·.seed)
         { c with inds := c.inds.filter fun i => !(seeds.any fun s => sameGenome s.genome i.genome) }
+  | .mahalanobis =>
+    -- every deme of the target level, active or not; non-CMA siblings are skipped by the code
+    some <| cs.map fun c =>
+      { c with inds := c.inds.filter fun i => (v.level (c.level + 1)).all fun s => env.maha i.genome s.id != some true }
 
 /-- a chain of filters, applied in order -/
 def applyFilters (v : View) (env : Env) : List Filter → List Cand → Option (List Cand)
